@@ -28,7 +28,8 @@ PROPS = {
     "C15": {"jobs": [{"pkg": "iter", "run": "^TestC15$", "checks_quick": 4000, "checks_thorough": 25000, "shards_thorough": 16}]},
     "C17": {"jobs": [{"pkg": "load", "run": "^TestC17$", "checks_quick": 1500, "checks_thorough": 3000, "shards_thorough": 16}]},
     "C18": {"jobs": [{"pkg": "codec", "run": "^TestC18$", "checks_quick": 3000, "checks_thorough": 15000, "shards_thorough": 16}]},
-    "C19": {"jobs": [{"pkg": "order", "run": "^TestC19$", "checks_quick": 60000, "checks_thorough": 500000, "shards_thorough": 16}]},
+    "C19": {"jobs": [{"pkg": "order", "run": "^TestC19$", "checks_quick": 60000, "checks_thorough": 500000, "shards_thorough": 16},
+                     {"pkg": "order", "run": "^TestC19Parallel$", "race": True, "checks_quick": 400, "checks_thorough": 6000, "shards_thorough": 4}]},
 }
 
 for _pid, _q, _t in (("C02", 2500, 4000), ("C03", 2500, 4000), ("C04", 2500, 4000), ("C05", 2500, 4000)):
@@ -36,7 +37,8 @@ for _pid, _q, _t in (("C02", 2500, 4000), ("C03", 2500, 4000), ("C04", 2500, 400
 for _pid in ("C01", "C02", "C03", "C05"):
     PROPS[_pid]["jobs"].append({"pkg": "conc", "run": "^Test%sMulti$" % _pid, "checks_quick": 2500, "checks_thorough": 16000, "shards_thorough": 8})
 
-PROPS["C20"] = {"jobs": [{"pkg": "keys", "run": "^TestC20$", "checks_quick": 1500, "checks_thorough": 8000, "shards_thorough": 16}]}
+PROPS["C20"] = {"jobs": [{"pkg": "keys", "run": "^TestC20$", "checks_quick": 1500, "checks_thorough": 8000, "shards_thorough": 16},
+                         {"pkg": "keys", "run": "^TestC20Parallel$", "race": True, "checks_quick": 150, "checks_thorough": 2000, "shards_thorough": 4}]}
 
 HOOK_COMMITS = ["0049d5e", "3ca7037", "66fb88e"]
 
@@ -135,12 +137,12 @@ META = {
     },
     "C19": {
         "technique": "property-based testing (rapid): order laws checked on all pairs/triples of generated entry pools; sort checked as metamorphic relation over generated permutations",
-        "text": "Generated-input exploration: every ordered pair and triple of rapid-generated pools of synthetic entries (equal/unequal times, ids with prefix relations, distinct hashes incl. distinct identifiers over one shared digest) is checked against irreflexivity, antisymmetry, transitivity, totality, causality (smaller time first), FWW == -LWW, and every sorter is checked to be deterministic over shuffles, a permutation of its input and ordered. Pure functions, so tens of thousands of pools per run; no proof of the laws for all inputs.",
+        "text": "Generated-input exploration: every ordered pair and triple of rapid-generated pools of synthetic entries (equal/unequal times, ids with prefix relations, distinct hashes incl. distinct identifiers over one shared digest) is checked against irreflexivity, antisymmetry, transitivity, totality, causality (smaller time first), FWW == -LWW, and every sorter is checked to be deterministic over shuffles, a permutation of its input and ordered. Pure functions, so tens of thousands of pools per run; no proof of the laws for all inputs. A second job (race detector on) has 2-6 goroutines compare and sort 2-3 generated pools at the same time: every result must be the one the same call gives alone.",
         "note": "Assumes non-negative clock times <= 2^62 (Lamport times); trusts Go's sort.SliceStable and the harness's re-statement of the laws.",
     },
     "C20": {
         "technique": "stateful model-based property testing (rapid): generated create/get/has/reopen/burst/identity sequences over 1-3 keystores sharing a datastore vs a map model; signature relations verified with independent libp2p calls",
-        "text": "Key presence and identity must agree with a map model across instances, reopen and LRU eviction (bursts of 130-300 keys); identities created twice are identical and their two signatures and entry signatures verify under the stated keys and messages. Exploration. Found and repaired HasKey's false negatives.",
+        "text": "Key presence and identity must agree with a map model across instances, reopen and LRU eviction (bursts of 130-300 keys); identities created twice are identical and their two signatures and entry signatures verify under the stated keys and messages. Exploration. Found and repaired HasKey's false negatives. A second job (race detector on) overlaps the operations for real: reader goroutines ask 1-2 keystores for keys created beforehand (3-200 of them) while writer goroutines create up to 450 more, so cache entries are evicted under the readers; every pre-existing key must be present and identical in every call.",
         "note": "Ids are datastore-key-normal; create only for absent ids.",
     },
 }
